@@ -1,4 +1,166 @@
-import ScryerModel.Model.CharReader
+import ScryerModel.Proofs.CharReader
+/-!
+# C18 — Text decoding does not depend on how input arrives
+
+`Model/CharReader.lean` mirrors `src/parser/char_reader.rs` (`read_chunk`, `refresh_buffer`,
+`peek_char` with its compaction and `bad_bytes_error`, `read_char`, `put_back_char`, `consume`)
+branch by branch; `Out.panic` marks every `expect`/`assert!`/slice-index panic of the Rust code.
+The underlying reader is the list of chunks its future `read` calls return. `pending s` (the
+unread bytes: rest of the buffer followed by all future chunks) is the abstraction function;
+`specPeek`/`specRead`/`specPutBack` are the operations of a stream that is nothing but its
+unread bytes, defined from `Model/Utf8.lean` (`decodeFirst`: Rust's `from_utf8` error model).
+`WF s`: the cursor is inside the buffer and no chunk is empty (`Ok(0)` = end of input).
+All theorems are for every state / byte string / chunking. Lemmas are in `Proofs/`.
+-/
 namespace Scryer.CharReader
-theorem C18_placeholder : (1 : Nat) = 1 := rfl
+open Scryer.Utf8
+
+/-! ## T0 — facts about the UTF-8 decoder that the reader relies on -/
+
+/-- A decoded character spans exactly `len_utf8` bytes, all of them present, and is a scalar
+    value (so it is a legal Rust `char`). -/
+theorem C18_utf8_ok (l : List Nat) (cp n : Nat) (h : decodeFirst l = .ok cp n) :
+    n = lenUtf8 cp ∧ n ≤ l.length ∧ 1 ≤ n ∧ isScalar cp = true :=
+  decodeFirst_ok h
+
+/-- An invalid sequence has 1 to 3 bytes, all of them present. -/
+theorem C18_utf8_invalid (l : List Nat) (n : Nat) (h : decodeFirst l = .invalid n) :
+    1 ≤ n ∧ n ≤ l.length ∧ n ≤ 3 :=
+  decodeFirst_invalid h
+
+/-- Prefix stability: once the decoder has decided (character or invalid sequence), bytes
+    arriving later do not change the decision. -/
+theorem C18_utf8_prefix_stable (p q : List Nat) (h : decodeFirst p ≠ .incomplete) :
+    decodeFirst (p ++ q) = decodeFirst p :=
+  decodeFirst_append q h
+
+/-- Only the first four bytes matter (why `peek_char` may decode a 4-byte prefix), and four
+    bytes always suffice to decide. -/
+theorem C18_utf8_first4 (l : List Nat) :
+    decodeFirst (l.take 4) = decodeFirst l ∧ (decodeFirst l = .incomplete → l.length < 4) :=
+  ⟨decodeFirst_take4 l, decodeFirst_incomplete_length⟩
+
+/-- Round trip with `char::encode_utf8` (what `put_back_char` writes), whatever follows. -/
+theorem C18_utf8_roundtrip (cp : Nat) (q : List Nat) (h : isScalar cp = true) :
+    decodeFirst (encode cp ++ q) = .ok cp (lenUtf8 cp) ∧ (encode cp).length = lenUtf8 cp :=
+  ⟨decodeFirst_encode h q, encode_length cp⟩
+
+/-! ## T1 — peek -/
+
+/-- `peek_char` never panics, does not change the unread input, and answers exactly what the
+    stream specification answers on the unread bytes — whatever the buffer contents, cursor
+    position and future chunking are. -/
+theorem C18_peek_refines (s : St) (h : WF s) :
+    WF (peekChar s).1 ∧ pending (peekChar s).1 = pending s ∧
+      (peekChar s).2 = specPeek (pending s) ∧ (peekChar s).2 ≠ .panic := by
+  obtain ⟨h1, h2, h3, _⟩ := peekChar_spec h
+  exact ⟨h1, h2, h3, by rw [h3]; exact specPeek_ne_panic _⟩
+
+/-- Peeking twice gives the same answer (and still the same unread input). -/
+theorem C18_peek_idempotent (s : St) (h : WF s) :
+    (peekChar (peekChar s).1).2 = (peekChar s).2 ∧
+      pending (peekChar (peekChar s).1).1 = pending s := by
+  obtain ⟨h1, h2, h3, _⟩ := peekChar_spec h
+  obtain ⟨_, k2, k3, _⟩ := peekChar_spec h1
+  exact ⟨by rw [k3, h2, h3], by rw [k2, h2]⟩
+
+/-! ## T2 — read -/
+
+/-- `read_char` (followed, after a bad-bytes error, by the caller's `consume(bytes.len())`)
+    returns the first item of the unread bytes and leaves exactly the rest unread. -/
+theorem C18_read_refines (s : St) (h : WF s) :
+    WF (readItem s).1 ∧ (pending (readItem s).1, (readItem s).2) = specRead (pending s) :=
+  readItem_spec h
+
+/-- Reading never panics. -/
+theorem C18_read_no_panic (s : St) (h : WF s) : (readItem s).2 ≠ .panic := by
+  have hsp := (readItem_spec h).2
+  by_cases hne : pending s = []
+  · rw [hne, specRead_nil] at hsp
+    rw [(Prod.mk.inj hsp).2]; intro h; cases h
+  · rw [specRead_of_ne hne] at hsp
+    rw [(Prod.mk.inj hsp).2]; exact itemToOut_ne_panic _
+
+/-! ## T3 — put back -/
+
+/-- `put_back_char(c)` prepends the encoding of `c` to the unread input, in both of its
+    branches (room before the cursor / buffer grown at the front). -/
+theorem C18_putback_refines (s : St) (cp : Nat) (h : WF s) :
+    WF (putBack s cp) ∧ pending (putBack s cp) = specPutBack (pending s) cp :=
+  putBack_spec h cp
+
+/-- Putting a character back and reading again returns that character and restores the
+    stream. -/
+theorem C18_putback_read (s : St) (cp : Nat) (h : WF s) (hs : isScalar cp = true) :
+    (readItem (putBack s cp)).2 = .char cp ∧
+      pending (readItem (putBack s cp)).1 = pending s ∧ WF (readItem (putBack s cp)).1 :=
+  putBack_read h hs
+
+/-- `put_back_char(c)` after `read_char` returned `c` restores the observable stream. -/
+theorem C18_read_putback (s : St) (cp : Nat) (h : WF s) (hr : (readItem s).2 = .char cp) :
+    WF (putBack (readItem s).1 cp) ∧ pending (putBack (readItem s).1 cp) = pending s :=
+  read_putBack h hr
+
+/-! ## T4 — the whole stream, and independence of chunking -/
+
+/-- Reading a stream to its end yields exactly the decoding of the concatenated bytes:
+    every character, and every invalid sequence once, in order. -/
+theorem C18_readAll_eq_decode (chunks : List (List Nat)) (h : ∀ c ∈ chunks, c ≠ []) :
+    readAll chunks = (decodeAll chunks.flatten).map itemToOut :=
+  readAll_spec h
+
+/-- Decoding never panics. -/
+theorem C18_readAll_no_panic (chunks : List (List Nat)) (h : ∀ c ∈ chunks, c ≠ []) :
+    Out.panic ∉ readAll chunks := by
+  rw [readAll_spec h]
+  intro hm
+  obtain ⟨it, _, hit⟩ := List.mem_map.1 hm
+  exact itemToOut_ne_panic it hit
+
+/-- Sanity of the specification itself: the items of `decodeAll` partition the input (a
+    character stands for its `encode_utf8` bytes, an error for the bytes it reports), so nothing
+    is dropped, duplicated or reordered. -/
+theorem C18_decodeAll_partitions_input (l : List Nat) :
+    (decodeAll l).flatMap itemBytes = l :=
+  decodeAllF_bytes _ _ (Nat.le_refl _)
+
+/-- HEADLINE: text decoding does not depend on how the input arrives. -/
+theorem C18_chunking_independent (cs1 cs2 : List (List Nat)) (h1 : ∀ c ∈ cs1, c ≠ [])
+    (h2 : ∀ c ∈ cs2, c ≠ []) (h : cs1.flatten = cs2.flatten) : readAll cs1 = readAll cs2 := by
+  rw [readAll_spec h1, readAll_spec h2, h]
+
+/-! ## non-vacuity: the interesting branches are reached -/
+
+-- a character split across two reads, starting at buffer offset 3 (< 4: no compaction)
+example : readAll [[0x61, 0x62, 0x63, 0xE2, 0x82], [0xAC]]
+    = [.char 0x61, .char 0x62, .char 0x63, .char 0x20AC] := by decide
+-- the same bytes in one chunk, byte by byte
+example : readAll [[0x61, 0x62, 0x63, 0xE2, 0x82, 0xAC]] = readAll [[0x61], [0x62], [0x63], [0xE2], [0x82], [0xAC]] := by decide
+-- a truncated character at end of input: one bad-bytes error carrying all remaining bytes
+example : readAll [[0x61, 0x62, 0xE2, 0x82]] = [.char 0x61, .char 0x62, .bad [0xE2, 0x82]] := by decide
+example : readAll [[0xE2, 0x82]] = [.bad [0xE2, 0x82]] := by decide
+-- compaction branch (`pos > 4`): the split character starts at buffer offset 5
+example : (peekChar { buf := [0x61, 0x62, 0x63, 0x64, 0x65, 0xE2, 0x82], pos := 5, chunks := [[0xAC]] })
+    = ({ buf := [0x61, 0x62, 0x63, 0x64, 0xE2, 0x82, 0xAC], pos := 4, chunks := [] }, .char 0x20AC) := by decide
+-- put-back growing the buffer at the front (`c_len > pos`)
+example : putBack { buf := [0x61], pos := 0, chunks := [] } 0x20AC
+    = { buf := [0xE2, 0x82, 0xAC, 0x61], pos := 0, chunks := [] } := by decide
+-- maximal-invalid-prefix rule: E2 28 → one bad byte, then '('
+example : readAll [[0xE2], [0x28, 0xA1]] = [.bad [0xE2], .char 0x28, .bad [0xA1]] := by decide
+
+/-! ## sensitivity: the code before the two `fix:` commits does NOT satisfy the theorems
+
+`peekLoopOld` (in `Proofs/CharReader`) is the loop with the original guard
+`self.buf.len() > 4` around `self.buf.drain(4..self.pos)` and the original
+`bad_bytes_error(&self.buf)` / `error_len().expect(..)` at end of input. On the very inputs
+above it panics, so `C18_readAll_no_panic` / `C18_chunking_independent` are false for it:
+the proofs depend on the repaired guard `self.pos > 4` and on `&self.buf[self.pos..]`. -/
+
+example : readAllOld [[0x61, 0x62, 0x63, 0xE2, 0x82], [0xAC]]
+    = [.char 0x61, .char 0x62, .char 0x63, .panic] := by decide
+example : readAllOld [[0x61, 0x62, 0x63, 0xE2, 0x82, 0xAC]]
+    = [.char 0x61, .char 0x62, .char 0x63, .char 0x20AC] := by decide
+example : readAllOld [[0xE2, 0x82]] = [.panic] := by decide
+example : readAllOld [[0x61, 0x62, 0xE2, 0x82]] = [.char 0x61, .char 0x62, .panic] := by decide
+
 end Scryer.CharReader
